@@ -155,11 +155,14 @@ struct Cfg {
     ssrc_known: bool,
     remote_set: bool,
     rtcp_set: bool,
+    /// sequence number every source starts from ('+1' letters count up from it): 1000, or 65534
+    /// so that the second '+1' of a source crosses the 16-bit wrap
+    seq_base: u16,
 }
 impl Cfg {
     fn json(&self) -> Value {
         json!({"probation": self.prob, "ssrc_known": self.ssrc_known,
-               "remote_set": self.remote_set, "rtcp_set": self.rtcp_set})
+               "remote_set": self.remote_set, "rtcp_set": self.rtcp_set, "seq_base": self.seq_base})
     }
     fn from_json(v: &Value) -> Option<Cfg> {
         Some(Cfg {
@@ -167,17 +170,23 @@ impl Cfg {
             ssrc_known: v["ssrc_known"].as_bool()?,
             remote_set: v["remote_set"].as_bool()?,
             rtcp_set: v["rtcp_set"].as_bool()?,
+            seq_base: v["seq_base"].as_u64().unwrap_or(SEQ_BASE as u64) as u16,
         })
     }
 }
 
-fn all_cfgs() -> Vec<Cfg> {
+fn all_cfgs(thorough: bool) -> Vec<Cfg> {
     let mut v = vec![];
     for prob in 0..=8u8 {
         for ssrc_known in [true, false] {
             for remote_set in [true, false] {
                 for rtcp_set in [false, true] {
-                    v.push(Cfg { prob, ssrc_known, remote_set, rtcp_set });
+                    v.push(Cfg { prob, ssrc_known, remote_set, rtcp_set, seq_base: SEQ_BASE });
+                    // the wrap dimension: all configurations in thorough, the SSRC-filtered ones
+                    // without a separate RTCP address in quick
+                    if thorough || (ssrc_known && !rtcp_set) {
+                        v.push(Cfg { prob, ssrc_known, remote_set, rtcp_set, seq_base: 65534 });
+                    }
                 }
             }
         }
@@ -246,7 +255,7 @@ impl Sys {
         }
         let keep = NOOP.with(|n| n.clone());
         conn.set_rtp_receiver(keep.clone());
-        Sys { conn, _keep: keep, last: [SEQ_BASE; 3], buf: Vec::new() }
+        Sys { conn, _keep: keep, last: [cfg.seq_base; 3], buf: Vec::new() }
     }
 
     /// What the harness will send for a packet letter (pure; does not advance bookkeeping).
@@ -1193,7 +1202,7 @@ fn main() {
     let mut rep = vh::Report::new("C18", &cli, "model_checking");
     let d1: usize = std::env::var("C18_D1").ok().and_then(|s| s.parse().ok()).unwrap_or(cli.tier.pick(4, 5));
     let d2: usize = std::env::var("C18_D2").ok().and_then(|s| s.parse().ok()).unwrap_or(cli.tier.pick(6, 8));
-    let cfgs = all_cfgs();
+    let cfgs = all_cfgs(cli.tier == vh::Tier::Thorough);
 
     // Configurations are independent: run them in parallel as well (nested rayon), so the
     // sequential bookkeeping of one configuration overlaps with the replays of others.
@@ -1263,7 +1272,7 @@ fn main() {
     rep.set("panics", vh::PANIC_COUNT.load(Ordering::SeqCst));
 
     rep.assume("Packets are well-formed 16-byte RTP (PT 0) / 28-byte RTCP SR; shorter-than-12-byte RTP, DTLS/STUN bytes and TCP sockets are outside the alphabet (socket is None).");
-    rep.assume("Sequence numbers: per source, start 1000, '+1' = last+1, 'other' = last-3 (a late/reordered packet); no 16-bit wrap is exercised, so wrap-unaware seq comparisons are not judged. Other-SSRC RTP always carries seq 7, no marker.");
+    rep.assume("Sequence numbers: per source, start 1000, '+1' = last+1, 'other' = last-3 (a late/reordered packet); a second starting point 65534 makes the second +1 of every source cross the 16-bit wrap (all configurations in thorough, the SSRC-filtered ones without a separate RTCP address in quick). Other-SSRC RTP always carries seq 7, no marker.");
     rep.assume("Documentation ambiguities accepted either way: 'first_seq' read as the first-arrived or the lowest sequence number of a candidate; 'consecutive_count' read as the current run (code comment) or the cumulative count (field doc); ties left after the documented tie-break accept any tied candidate. Rule order is taken as documented: 'evaluated in order' 1 marker, 2 consecutive, 3 timeout.");
     rep.assume("probation 0 is judged as documented on the field: the first SSRC-matching RTP latches immediately; I2 bound is max(probation,1) eligible packets since the last reset.");
     rep.assume("When no expected SSRC is known (0) every RTP packet is an eligible ('legitimate') packet, as the statement says 'when one is known'.");
